@@ -25,6 +25,8 @@ class Ctx:
         self.extra = {}
         self.exhaustive = True
         self.thorough = tier == "thorough"
+        self._replay_of = None
+        self.selftest_hash_fail = False
 
     # ---- step 2: bounded model
     def mc(self, module, cfg=None, workers=8, timeout=900, env=None, coverage=False, xmx="6g", simulate=None, depth=None):
@@ -87,8 +89,10 @@ class Ctx:
             s = dump_index.get(sc)
             return {"driver": run["driver"], "flags": run["flags"], "validator": module, "scn": [s] if s else []}
 
+        self._replay_of = replay_of
         if self.selftest:
             nf = sum(1 for e in emits if e.get("t") == "FAIL" and e.get("p") == self.pid)
+            nf += sum(1 for e in emits if e.get("t") == "HASHCHK" and e.get("p") == self.pid and vlib.digest(e["alg"], e["pre"]) != e["expect"])
             log("[%s] selftest %s: %d FAIL emit(s) on corrupted trace" % (self.pid, module, nf))
             if nf == 0:
                 self.selftest_ok = False
@@ -131,8 +135,10 @@ class Ctx:
         if not scn:
             raise ToolError("replay file has no scenario")
         p = self.write_scn(scn, "replay_scn.ndjson")
-        run = self.drive(first["driver"], scn=p, n=0, flags=first.get("flags", ()))
-        self.validate(first["validator"], run, shards=1)
+        run = self.drive(first["driver"], scn=p, n=0, flags=[f for f in first.get("flags", ()) if f not in ("--plutus", "--minada")])
+        em = self.validate(first["validator"], run, shards=1)
+        if em is not None:
+            _take_hashchk(self, em)
         return run
 
     def coverage(self):
@@ -303,7 +309,44 @@ def _check_key_table(trace):
     return len(seen)
 
 
-def builder_family(ctx, n_random, mc_sample, flags=(), corrupt=None, extra_scn=None):
+def _check_tables(trace):
+    """Key and script tables of Reset events are library output: re-check every hash with hashlib (independent of cryptoxide)."""
+    seen = set()
+    for r in vlib.read_ndjson(trace):
+        if r.get("ev") != "Reset":
+            continue
+        for k in r.get("keys", []):
+            t = (bytes(k["vkey"]), bytes(k["hash"]))
+            if t not in seen:
+                seen.add(t)
+                if vlib.digest("blake2b224", k["vkey"]) != k["hash"]:
+                    raise ToolError("key table entry %s: hash is not blake2b-224(vkey)" % k["k"])
+        for sc in r.get("scripts", []):
+            t = (bytes(sc["bytes"]), bytes(sc["hash"]))
+            if t not in seen:
+                seen.add(t)
+                pre = [sc["lang"]] + sc["bytes"]          # script hash = blake2b-224(language tag byte ++ script bytes)
+                if vlib.digest("blake2b224", pre) != sc["hash"]:
+                    raise ToolError("script table entry %s/%s: hash is not blake2b-224(tag ++ bytes)" % (sc["kind"], sc["id"]))
+    return len(seen)
+
+
+def _take_hashchk(ctx, em):
+    """HASHCHK emits: the specification assembled a preimage from emitted bytes and names the digest found in the body;
+    H is uninterpreted in TLA+, its graph is evaluated here with hashlib. A mismatch is a FAIL of that property."""
+    n = 0
+    for e in em:
+        if e.get("t") == "HASHCHK":
+            n += 1
+            if vlib.digest(e["alg"], e["pre"]) != e["expect"]:
+                if e.get("p") == ctx.pid:
+                    ctx.verdict.add_fail(e["sig"], e.get("sc"), {"preimage_len": len(e["pre"]), "expect": e["expect"]}, ctx._replay_of(e.get("sc")) if ctx._replay_of else None)
+                if ctx.selftest and e.get("p") == ctx.pid:
+                    ctx.selftest_hash_fail = True
+    return n
+
+
+def builder_family(ctx, n_random, mc_sample, n_plutus=0, flags=(), corrupt=None, extra_scn=None):
     if ctx.replay:
         return ctx.run_replay()
     import random
@@ -311,21 +354,31 @@ def builder_family(ctx, n_random, mc_sample, flags=(), corrupt=None, extra_scn=N
     r = ctx.mc("MC_TxBuilder", cfg=cfg, workers=8)
     scn = r.by("SCN")
     rnd = random.Random(ctx.seed)
-    if mc_sample and len(scn) > mc_sample:
+    if mc_sample is not None and len(scn) > mc_sample:
         scn = rnd.sample(scn, mc_sample)
         ctx.exhaustive = False
         ctx.extra["model_scenarios_sampled"] = mc_sample
     if extra_scn:
         scn = scn + extra_scn
-    p = ctx.write_scn(scn)
-    run = ctx.drive("builder", scn=p, n=n_random, flags=flags)
-    ctx.extra["key_table_entries_rechecked_with_hashlib"] = _check_key_table(run["trace"])
-    em = ctx.validate("Trace_TxBuilder", run, shards=16, corrupt=corrupt)
-    if em is not None:
-        tf = [e for e in em if e.get("t") == "TOOLFAIL"]
-        if tf:
-            raise ToolError("harness/spec disagreement (not a verdict): %s" % json.dumps(tf[0])[:400])
-    return run
+    runs = []
+    if scn or n_random:
+        p = ctx.write_scn(scn)
+        runs.append(ctx.drive("builder", scn=p, n=n_random, flags=flags))
+    if n_plutus:
+        runs.append(ctx.drive("builder", n=n_plutus, flags=["--plutus"], name="builder_plutus"))
+    nt = 0
+    nh = 0
+    for run in runs:
+        nt += _check_tables(run["trace"])
+        em = ctx.validate("Trace_TxBuilder", run, shards=16, corrupt=corrupt)
+        if em is not None:
+            tf = [e for e in em if e.get("t") == "TOOLFAIL"]
+            if tf and not ctx.selftest:
+                raise ToolError("harness/spec disagreement (not a verdict): %s" % json.dumps(tf[0])[:400])
+            nh += _take_hashchk(ctx, em)
+    ctx.extra["table_entries_rechecked_with_hashlib"] = nt
+    ctx.extra["digests_evaluated_with_hashlib"] = nh
+    return runs
 
 
 def _corrupt_env_coin(recs, rnd):
@@ -383,7 +436,7 @@ def check_C05(ctx):
              "signed transaction after successful balancing; distinct = (shape, #vkey witnesses, #bootstrap witnesses, fee width)")
 def check_C06(ctx):
     ctx.assumptions += _BUILDER_ASSUME
-    builder_family(ctx, n_random=20000 if ctx.thorough else 1500, mc_sample=None if ctx.thorough else 1200, corrupt=_corrupt_fee)
+    builder_family(ctx, n_random=20000 if ctx.thorough else 1200, mc_sample=None if ctx.thorough else 800, n_plutus=6000 if ctx.thorough else 600, corrupt=_corrupt_fee)
 
 
 @prop("C07", "as C05; every output of every built transaction is checked for coin >= cpb*(160+size) and value size <= max, the signed "
@@ -413,3 +466,75 @@ def _corrupt_collateral(recs, rnd):
 def check_C19(ctx):
     ctx.assumptions += _BUILDER_ASSUME + ["a helper that fails after collateral fields were already set by an earlier call is not judged (the statement speaks of a failed attempt leaving neither field set; only attempts from the unset state are checked)"]
     builder_family(ctx, n_random=25000 if ctx.thorough else 2500, mc_sample=None if ctx.thorough else 300, corrupt=_corrupt_collateral)
+
+
+def _corrupt_redeemer_index(recs, rnd):
+    """negative control: in every built transaction one redeemer index byte is bumped (map key [tag, index] or array element)"""
+    n = 0
+    for r in recs:
+        if r.get("ev") == "Built":
+            tx = r["tx"]
+            # find the pattern 0x82 tag ix 0x82 (map-form key followed by the value array) and bump ix
+            for i in range(len(tx) - 4):
+                if tx[i] == 0x82 and tx[i + 1] in (0, 1, 2, 3) and tx[i + 2] < 0x17 and tx[i + 3] == 0x82 and tx[i + 4] in (0x18, 0x19) :
+                    tx[i + 2] += 1
+                    n += 1
+                    break
+    return n > 0
+
+
+def _corrupt_sdh(recs, rnd):
+    """negative control: one cost-model parameter differs (langs list of CalcScriptDataHash events is shifted) - digests no longer match"""
+    n = 0
+    for r in recs:
+        if r.get("ev") == "Built":
+            tx = r["tx"]
+            for i in range(len(tx) - 34):
+                if tx[i] in (0x0b, 0x07) and tx[i + 1] == 0x58 and tx[i + 2] == 0x20:      # body key 11 / key 7, bytes(32)
+                    tx[i + 3] ^= 1
+                    n += 1
+                    break
+    return n > 0
+
+
+@prop("C09", "scenario = Plutus spends / mints / certificates / withdrawals / votes with witness, inline or reference scripts and datums, "
+             "extra and duplicated datums, in a random order of the additions, script data hash computed last; and auxiliary data of "
+             "1..60 bytes; for every built transaction TLC assembles the script-integrity preimage from the EMITTED witness set (redeemer "
+             "span, datum span, language views of the versions in use, encoded by the spec) and the auxiliary-data span, hashlib evaluates "
+             "Blake2b-256; distinct = (language set, #redeemers, #datums) and auxiliary sizes")
+def check_C09(ctx):
+    ctx.assumptions += _BUILDER_ASSUME + ["Blake2b is uninterpreted in TLA+; the digest of each spec-assembled preimage is evaluated by hashlib (HASHCHK records)",
+                                          "cost models are 6-parameter vectors fixed by a rule shared with the spec; V1/V2/V3 by script id"]
+    builder_family(ctx, n_random=4000 if ctx.thorough else 500, mc_sample=0, n_plutus=8000 if ctx.thorough else 900, corrupt=_corrupt_sdh)
+
+
+@prop("C10", "as C09; each script use carries a redeemer whose datum is a unique integer; TLC locates every redeemer in the emitted "
+             "witness set and checks (purpose, index) against the ledger's position of the attached item: inputs sorted by (txid, index), "
+             "policy ids sorted, certificate sequence, withdrawals in reward-account order; pointers pairwise distinct; as many redeemers "
+             "as script uses; outpoints are spread over 41 transaction ids so that sorted order differs from insertion order; distinct = "
+             "sets of (purpose, expected index)")
+def check_C10(ctx):
+    ctx.assumptions += _BUILDER_ASSUME + ["vote redeemers are checked for presence, purpose and distinctness only (DESIGN section 3 C10)",
+                                          "reward-account order is the ledger's derived Ord (network, script before key credential, hash); a pointer that matches raw byte order instead is noted as ambiguous-order, not failed"]
+    builder_family(ctx, n_random=0, mc_sample=0, n_plutus=12000 if ctx.thorough else 1500, corrupt=_corrupt_redeemer_index)
+
+
+def _corrupt_full_size(recs, rnd):
+    n = 0
+    for r in recs:
+        if r.get("ev") == "Built" and isinstance(r.get("full_size"), dict) and r["full_size"].get("ok"):
+            r["full_size"]["n"] -= 70
+            n += 1
+    return n > 0
+
+
+@prop("C18", "as C09 plus the regular builder scenarios; for every script use TLC counts where the script is available (witness-set "
+             "scripts mapped to hashes through the hashlib-checked script table, reference scripts of outputs that are among body[18] or "
+             "spent) and demands exactly one; datums of spent Plutus outputs with a datum hash must be in the witness set or inline at a "
+             "reference input; the builder's full_size() is bracketed by the really signed size: signed <= full_size < signed + 101; "
+             "distinct = transaction shapes x witness counts")
+def check_C18(ctx):
+    ctx.assumptions += _BUILDER_ASSUME + ["each script id is consistently provided either by witness or by one reference UTxO within a scenario (a caller who supplies "
+                                          "the same script both ways asks for two copies)",
+                                          "101 bytes = one key witness [vkey(32), signature(64)] with its CBOR heads"]
+    builder_family(ctx, n_random=15000 if ctx.thorough else 1200, mc_sample=None if ctx.thorough else 400, n_plutus=8000 if ctx.thorough else 900, corrupt=_corrupt_full_size)
